@@ -343,3 +343,53 @@ def parse_result(lines):
         elif p[0].endswith("call"):
             r.setdefault(p[0], []).append((unhx(p[1]), [unhx(x) for x in p[2].split(",")] if len(p) > 2 and p[2] else []))
     return r
+
+
+def parse_case(line):
+    """inverse of solve_case: the keyword dictionary the oracles read (used by the regression corpus and by replays)"""
+    toks = line.split()
+    kv = {}
+    for t in toks[1:]:
+        if "=" in t:
+            k, v = t.split("=", 1)
+            kv[k] = v
+
+    def fl(s):
+        return None if s in (None, "none") else unhx(s)
+
+    def fll(s):
+        if s in (None, "none"):
+            return None
+        body = s.split(":", 1)[1] if ":" in s else s
+        return [unhx(v) for v in body.split(",") if v]
+
+    def tol(s):
+        kind, body = s.split(":", 1)
+        return [unhx(v) for v in body.split(",")] if kind == "v" else unhx(body)
+
+    nf, fbody = kv["f"].split(":", 1)
+    prob = {"y0": fll(kv["y0"]), "f": fbody.split(";"), "name": "corpus", "span": abs(unhx(kv["xend"]) - unhx(kv["x0"]))}
+    kw = dict(method=kv["method"], prob=prob, x0=unhx(kv["x0"]), xend=unhx(kv["xend"]), rtol=tol(kv["rtol"]),
+              atol=tol(kv["atol"]), max_steps=None if kv["maxsteps"] == "none" else int(kv["maxsteps"]),
+              first_step=fl(kv["firststep"]), max_step=fl(kv["maxstep"]), min_step=fl(kv["minstep"]),
+              t_eval=fll(kv["teval"]), dense=kv["dense"] == "1", query=fll(kv.get("query")) or [])
+    nev, evbody = kv["ev"].split(":", 1)
+    kw["events"] = tuple(evbody.split(";")) if int(nev) else ()
+    if "jac" in kv:
+        n, body = kv["jac"].split(":", 1)
+        es = body.split(";")
+        n = int(n)
+        prob["jac"] = [es[i * n:(i + 1) * n] for i in range(n)]
+        kw["use_jac"] = True
+    if "mass" in kv:
+        n, body = kv["mass"].split(":", 1)
+        vs = [unhx(v) for v in body.split(",")]
+        n = int(n)
+        kw["mass"] = [vs[i * n:(i + 1) * n] for i in range(n)]
+    if "jacstorage" in kv:
+        kw["jac_storage"] = kv["jacstorage"]
+    if "massstorage" in kv:
+        kw["mass_storage"] = kv["massstorage"]
+    if kv.get("full") == "1":
+        kw["full"] = True
+    return kw
